@@ -151,6 +151,7 @@ func (h *Handler) handleRequest(host *packet.Host, p packet.DHCP4, options packe
 		if !bytes.Equal(lease.Addr.MAC, p.CHAddr()) || // invalid hardware
 			lease.State == StateFree || // nothing was offered to this client and it holds no lease
 			(lease.State == StateDiscover && (!bytes.Equal(lease.XID, p.XId()) || lease.IPOffer != reqIP)) || // invalid discover request
+			(lease.State == StateDiscover && !h.ipAvailable(lease, reqIP)) || // offered address was taken by another client in the meantime
 			(lease.State == StateAllocated && lease.Addr.IP != reqIP) { // invalid request - iphone send duplicate select packets - let it pass
 			Logger.Msg("request NACK - select invalid parameters").ByteArray("xid", p.XId()).ByteArray("lxid", lease.XID).IP("leaseIP", lease.Addr.IP).Write()
 			return nakPacket(p, subnet.DHCPServer.AsSlice(), clientID)
